@@ -62,7 +62,9 @@ func c05Cases(seed int64, tier string) []core.Case {
 		nGrid, nHist, steps = 400, 200, 120
 	}
 	var cs []core.Case
-	for i, cfg := range c05ParamGrid(r, nGrid) {
+	// the parameter grid is fixed (not seeded): the set of configuration-level findings on a given
+	// tree is then the same for every VERIF_SEED; the thorough grid extends the quick one
+	for i, cfg := range c05ParamGrid(gen.New(0xC05C05), nGrid) {
 		cs = append(cs, core.MkCase(fmt.Sprintf("create-%d", i), "create", r.Int63(), ext4Case{Cfg: cfg, Mode: "create-only"}))
 	}
 	cfgs := ext4Configs()
